@@ -7,7 +7,7 @@ PID = "C15"
 
 
 def _cfg(calls, trace=False):
-    c = "CONSTANTS\n MaxD = 3\n MaxCalls = %d\n MaxP = 8\n" % calls
+    c = "CONSTANTS\n MaxD = 3\n MaxCalls = %d\n MaxP = 10\n" % calls
     if trace:
         return c + "INIT TInit\nNEXT TNext\nINVARIANT Report\nCHECK_DEADLOCK FALSE\n"
     return c + "INIT Init\nNEXT Next\nINVARIANT InvSum\nINVARIANT InvOne\nINVARIANT InvSame\nINVARIANT Emit\nCHECK_DEADLOCK FALSE\n"
